@@ -466,18 +466,17 @@ def expand_expr_helpers(ctx, fn):
     import copy
     from ..core.index import FuncInfo
     cls = fn.cls
-    if cls is None:
-        return fn
     changed = []
 
     class T(ast.NodeTransformer):
         def visit_Call(self, node):
             node = self.generic_visit(node)
             f = node.func
-            if not (isinstance(f, ast.Attribute) and isinstance(f.value, ast.Name) and f.value.id == "self" and not node.keywords
-                    and f.attr.startswith("_") and not f.attr.startswith("__")):
+            is_meth = cls is not None and isinstance(f, ast.Attribute) and isinstance(f.value, ast.Name) and f.value.id == "self" and f.attr.startswith("_") and not f.attr.startswith("__")
+            is_modf = isinstance(f, ast.Name) and f.id.startswith("_") and not f.id.startswith("__") and f.id in getattr(fn.module, "funcs", {})
+            if node.keywords or not (is_meth or is_modf):
                 return node
-            m = ctx.program.lookup_method(cls, f.attr)
+            m = ctx.program.lookup_method(cls, f.attr) if is_meth else fn.module.funcs[f.id]   # a private method, or a private function of the module
             if m is None or m.node.decorator_list or not isinstance(m.node, ast.FunctionDef):
                 return node
             a = m.node.args
@@ -486,7 +485,7 @@ def expand_expr_helpers(ctx, fn):
             body = [s for s in m.node.body if not (isinstance(s, ast.Expr) and isinstance(s.value, ast.Constant))]
             if not (body and isinstance(body[-1], ast.Return) and body[-1].value is not None):
                 return node
-            params = [x.arg for x in a.args][1:]
+            params = [x.arg for x in a.args][1:] if is_meth else [x.arg for x in a.args]
             # `tmp = <expr>` statements before the return (each local assigned once, read once afterwards) are folded into the returned expression
             ret = copy.deepcopy(body[-1].value)
             locs = {}
@@ -498,7 +497,11 @@ def expand_expr_helpers(ctx, fn):
             for nm_ in reversed(list(locs)):
                 later = [ret] + [locs[k_] for k_ in list(locs)[list(locs).index(nm_) + 1:]]
                 uses = sum(1 for e_ in later for x in ast.walk(e_) if isinstance(x, ast.Name) and x.id == nm_)
-                if uses != 1:
+                pure_ = all(isinstance(x, (ast.Name, ast.Constant, ast.Subscript, ast.Slice, ast.Attribute, ast.BinOp, ast.UnaryOp, ast.Compare, ast.BoolOp, ast.Tuple, ast.expr_context,
+                                           ast.operator, ast.unaryop, ast.cmpop, ast.boolop)) or
+                            (isinstance(x, ast.Call) and isinstance(x.func, ast.Name) and x.func.id in ("ord", "len", "int", "bool", "abs", "min", "max") and not x.keywords)
+                            for x in ast.walk(locs[nm_]))
+                if uses != 1 and not (uses > 1 and pure_):   # a pure temporary may be read several times: repeating it changes nothing
                     return node
             for nm_ in reversed(list(locs)):
                 ret = _Subst({nm_: locs[nm_]}).visit(ast.Expression(body=ret)).body
@@ -509,7 +512,7 @@ def expand_expr_helpers(ctx, fn):
             e = _Subst(dict(zip(params, node.args))).visit(ast.Expression(body=copy.deepcopy(ret))).body
             for x in ast.walk(e):
                 ast.copy_location(x, node)
-            changed.append(f.attr)
+            changed.append(f.attr if is_meth else f.id)
             return e
 
     new = T().visit(copy.deepcopy(fn.node))
@@ -533,4 +536,50 @@ def deep_calls(ctx, cls, calls, depth=2):
             if h is not None:
                 from ..core.index import calls_in as _ci
                 out.extend(deep_calls(ctx, cls, list(_ci(h.node)), depth - 1))
+    return out
+
+
+def rule_default_options(ctx, rule_id, table, why):
+    """Defaults of the protocol options a property leans on: `resetProtocolOptions` of the named factory is evaluated (sa.core.tiny) and the
+    attribute it leaves behind compared with the value the property needs when the application configures nothing.
+    table: (factory class name, option, wanted default)"""
+    from ..core.tiny import Tiny, Sym
+    if rule_id is not None:
+        ctx.rule(rule_id)
+    done = {}
+    for cname, attr, want in table:
+        q = f"autobahn.websocket.protocol.{cname}.resetProtocolOptions"
+        if cname not in done:
+            fn = ctx.program.func(q)
+            ctx.analysed(fn)
+            env = {"self": Sym("factory")}
+            try:
+                t = Tiny(env, default_call=lambda f_, a_, k_=None: Sym(f"<{f_}>"), opaque_globals=True, model_strings=True,
+                         inline_self=inline_private(ctx, fn.cls))
+                t.run([x for x in fn.node.body if not (isinstance(x, ast.Expr) and isinstance(x.value, ast.Constant))])
+            except AnalysisError as e:
+                raise AnalysisError(f"[{ctx.cur_rule}] {q} outside the modelled subset: {e}")
+            done[cname] = (fn, t)
+        fn, t = done[cname]
+        got = t.env.get(f"self.{attr}", t.env["self"].attrs.get(attr, "<not set>"))
+        ctx.ob(f"{cname} default {attr} = {want}", got is want or (got == want and type(got) is type(want)), f"default is {got!r}: {why}", fn.loc())
+
+
+def class_consts(ctx, cls):
+    """class-level constants of `cls` as values: literals, and tables (dict / tuple / list displays) built from them -- evaluated on the model"""
+    from ..core.tiny import Tiny
+    out = {}
+    assigns = [s_ for s_ in cls.node.body if isinstance(s_, ast.Assign) and len(s_.targets) == 1 and isinstance(s_.targets[0], ast.Name)]
+    for s_ in assigns:
+        if isinstance(s_.value, ast.Constant) and isinstance(s_.value.value, (int, str, bytes, bool)):
+            out[s_.targets[0].id] = s_.value.value
+    for _ in range(2):
+        for s_ in assigns:
+            if s_.targets[0].id in out or not isinstance(s_.value, (ast.Dict, ast.Tuple, ast.List, ast.Set, ast.BinOp)):
+                continue
+            try:
+                v = Tiny(dict(out), model_strings=False).ev(s_.value)
+            except Exception:  # noqa: not derivable from the constants alone
+                continue
+            out[s_.targets[0].id] = v
     return out
